@@ -191,6 +191,21 @@ func verif_C12_scalar(which int) {
 		c = a.CloneMagicScalar().(*Real64)
 	case 3:
 		c = a.CloneConstScalar().(*Real64)
+	case 4: // assignments copy: the target is as independent of the source as a clone
+		c = NewReal64(0)
+		c.Set(a)
+	case 5:
+		c = NewReal64(0)
+		c.SET(a)
+	case 6: // operations that hand an operand through (copy of the larger / the absolute value)
+		c = NewReal64(0)
+		lo := VerifFinite64("lo")
+		VerifAssume(a.GetFloat64() > lo)
+		c.MAX(a, NewReal64(lo))
+	case 7:
+		c = NewReal64(0)
+		VerifAssume(a.GetFloat64() > 0)
+		c.ABS(a)
 	}
 	verifSameJetReal64("clone:equal-to-source", c, a)
 	ref := j.mk()
